@@ -20,6 +20,16 @@ TRUSTED = [
 ]
 ASSUMPTIONS = ["mask policy on the wire (client masked with per-frame key, server unmasked) is checked on real protocol objects in part B of this harness"]
 W = Path(__file__).parent / "workers"
+MANIFEST_ENTRY = {
+    "technique": "Lean 4 theorems (all keys/offsets/alignments/lengths/chunkings) + exhaustive differential tie to the 4 real maskers",
+    "text": "Proved in Lean for all inputs: simple, table-shifted and SSE2 (head/aligned body/tail, every alignment) masker models equal "
+            "byte-wise XOR with key[(p+i) mod 4]; involution; pointer = bytes processed; any chunking equals one call. The models are "
+            "tied to the code by running the real pure-Python maskers and the NVX C (recompiled from /repo, called in place at "
+            "alignments 0..15) on lengths 0..300 x offsets 0..3 x splits against the Lean spec; the default mask policy is observed "
+            "on real client/server protocol objects.",
+    "note": "Trusted: Lean kernel; the hand-written models mirror the code (checked only by the differential run); gcc/SSE2/cffi. "
+            "Wire policy (mask bit, one key per frame) is an observation on generated API sequences, not a theorem.",
+}
 
 
 def gen_cases(ctx):
